@@ -1,4 +1,5 @@
 ENTRY = dict(
+    gen=["suites"],
     runner="C28", pkg="./cmd/c28", corr=["Corr.C28Corr"], n=dict(quick=1, thorough=1), runner_timeout=1200,
     rule="every AEAD suite a crypto/tls server implements (6 AES-GCM and 2 ChaCha20 suites at TLS 1.2, the 3 TLS 1.3 suites): a "
          "uTLS client (custom spec offering exactly that suite/version) handshakes over loopback TCP; then, at successive sequence "
